@@ -7,7 +7,9 @@ open SigModel.Proto SigModel.Hub SigModel.Driver.HubCommon
 abbrev St := HubCommon.St
 
 def step (st : St) (op impl : List String) : St × String × String :=
-  stepWith (fun st pre op impl => match judgeC19 st pre op impl with
+  stepWith (fun st pre op impl => match judgeC19Life st pre impl with
+   | e :: _ => "violated:" ++ e
+   | [] => match judgeC19 st pre op impl with
     | "na" => (match op with
       | .message .. => judgeC05 pre op impl
       | _ => verdictOf ((judgeTables impl).filter (fun e => hasPrefix "residue:vt" e || hasPrefix "residue:ch" e)))
